@@ -443,6 +443,22 @@ def compound_attacks(tier):
                     except Exception:  # noqa
                         continue
 
+    # many declared items that the data really backs (one byte each): work must stay linear in the size of the input
+    files = [{"name": f"f{i}", "kind": "file", "data": b"x"} for i in range(10)]
+    raw, _ = write_archive({"files": files, "folders": [{"nfiles": 1, "coders": [{"id": "copy"}], "crc": "none"} for _ in range(10)], "header": "raw"})
+    tree = mutate.parse_to_tree(raw, None)
+    for n in ((60000, 150000) if tier == "quick" else (60000, 150000, 400000)):
+        t = copy.deepcopy(tree)
+        pk = t["header"]["items"][0]["items"][0]
+        pk["numstreams"] = n
+        pk["items"][0]["sizes"] = [1] * n
+        yield (f"{n} packed streams of one byte", mutate.build_from_tree(t))
+        t = copy.deepcopy(tree)
+        sub = [x for x in t["header"]["items"][0]["items"] if x.get("t") == "SubStreamsInfo"]
+        if sub and sub[0]["items"] and "nums" in sub[0]["items"][0]:
+            sub[0]["items"][0]["nums"] = [n // 10] * 10
+            sub[0]["items"] = sub[0]["items"][:1] + [{"t": "Size", "sizes": [0] * (n - 10)}] if False else sub[0]["items"][:1]
+            yield (f"10 folders of {n // 10} substreams, nothing behind", mutate.build_from_tree(t))
     # the start header's own fields (re-sealed): offsets and sizes the file cannot back
     files = [{"name": "a", "kind": "file", "data": b"abc" * 20}]
     raw, _ = write_archive({"files": files, "folders": [{"nfiles": 1, "coders": [{"id": "copy"}], "crc": "substream"}], "header": "raw"})
